@@ -9,6 +9,11 @@ PROP = dict(
                        "seen_not_requested (seen nodes carry no request, the others are PreProcessed with one)",
                        "key_deterministic (same parsed text, same canonical string)",
                        "store_exact (the store holds exactly the URLs checked so far, each with the strongest type it was checked as)"]),
+        dict(driver="seenconc", binary="zseen", quick=10, thorough=120, shard=1,
+             monitors=["seen_after_record (parallel phase: every URL recorded before the phase started is skipped; seed/redirect over asset-only is let through and promoted)",
+                       "seen_only_if_reported (parallel phase: a URL private to one tree, never recorded, is not skipped)",
+                       "store_exact (after the parallel phase the store is the union of what was checked)",
+                       "seen_not_requested"]),
         dict(driver="hqseen", binary="zseen", quick=500, thorough=12000, shard=50,
              monitors=["hq_seen_only_if_reported (marked only if the HQ answered and did not return the text sent for the node)",
                        "hq_seen_if_reported (a text the HQ did not return is skipped)",
@@ -19,7 +24,7 @@ PROP = dict(
     ],
     partial="The canonical string is taken as the identity of a URL (its computation is C09's; key_deterministic is monitored, not proved). "
             "The crawl HQ service is not part of the repository: C08_hq_seen_after_record is about a reference HQ (a set of texts), the per-call "
-            "theorems hold for every answer. Overlapping concurrent checks of the same URL are outside the property (only completed-before-started pairs are claimed).",
+            "theorems hold for every answer. Concurrent checks that WRITE the same URL are outside the property (a record completed before a check started must be honoured: covered by the parallel leg seenconc, whose concurrent trees share only URLs they read).",
     assumptions=["fnv64a is injective on the canonical strings in play (needed by C08_seen_only_if_recorded only; checked on every generated case)",
                  "LevelDB Get returns the last value Set for a key, also after Close/Start on the same directory (the driver observes the store after every step)",
                  "http.NewRequest succeeds on a canonical URL (else the node is Failed, not modelled)",
